@@ -190,10 +190,36 @@ type handlerUse struct {
 }
 
 func handlerUses(fn *ssa.Function, start *ssa.Call) []handlerUse {
+	// the finish handler: second result of the start call, or — when the results are bundled in a struct — the value of
+	// its function-typed field (read from the call's value or from the local it is kept in)
 	var h ssa.Value
+	isFunc := func(t types.Type) bool { _, ok := t.Underlying().(*types.Signature); return ok }
 	for _, ref := range *start.Referrers() {
-		if ex, ok := ref.(*ssa.Extract); ok && ex.Index == 1 {
-			h = ex
+		switch x := ref.(type) {
+		case *ssa.Extract:
+			if x.Index == 1 {
+				h = x
+			}
+		case *ssa.Field:
+			if isFunc(x.Type()) {
+				h = x
+			}
+		case *ssa.Store:
+			al, ok := x.Addr.(*ssa.Alloc)
+			if !ok || x.Val != ssa.Value(start) {
+				continue
+			}
+			for _, ar := range *al.Referrers() {
+				fa, ok := ar.(*ssa.FieldAddr)
+				if !ok || fa.Referrers() == nil || !isFunc(fa.Type().(*types.Pointer).Elem()) {
+					continue
+				}
+				for _, ld := range *fa.Referrers() {
+					if u, ok := ld.(*ssa.UnOp); ok && u.Op == token.MUL && h == nil {
+						h = u
+					}
+				}
+			}
 		}
 	}
 	if h == nil {
